@@ -50,6 +50,10 @@ def run(repo, rep, tier):
     _emission(repo, rep)
     _default_paths(repo, rep)
     _defaults(repo, rep)
+    # a translated attribute (i18n:attributes) whose value is None is still
+    # dropped: the value is not handed to the translation function first
+    from .c10 import translate_skips_none
+    translate_skips_none(repo, rep, rule="R07.4")
 
 
 # ---------------------------------------------------------------------------
